@@ -82,6 +82,8 @@ class Models:
         b = self.ex.truth(self.ex.ev(e.args[1], loc), loc)
         export_facts(loc, st, n0, [a])
         st.heap.update({k: v for k, v in loc.heap.items() if k not in st.heap})
+        if loc.ghost.get('tokens3') and loc.ghost.get('tokens3') != st.ghost.get('tokens3'):
+            st.ghost['tokens3'] = loc.ghost['tokens3']      # names given to 3-D arrays stay the same names outside the implication
         st.side += loc.side
         return IMPLIES(a, b)
 
